@@ -499,8 +499,7 @@ class SimReadHandle(io.BufferedReader):
     def read(self, n=-1):
         if self._sim_closed:
             raise ValueError('read of closed file')
-        out = self._range(self._pos, n, 'r.read')
-        self._pos += len(out)
+        out = self._range(None, n, 'r.read')       # None: from wherever the handle stands when the read executes
         return out
 
     def pread(self, n, offset):
@@ -509,6 +508,11 @@ class SimReadHandle(io.BufferedReader):
 
     def _range(self, off, n, kind):
         _yp(kind, info=(self._hid,), advance=LAT_LOCAL_READ)
+        # the position is looked at *after* the decision point: another thread sharing this handle may have
+        # moved it between this thread's seek and its read
+        sequential = off is None
+        if sequential:
+            off = self._pos
         fs = self._fs
         data = self._data()
         if n is None or n < 0:
@@ -531,6 +535,8 @@ class SimReadHandle(io.BufferedReader):
         else:
             out = bytes(data[off:off + want])
         fs.reqlog.append((fs.call_id, 'file', self._path, off, want, len(out), _thread_name()))
+        if sequential:
+            self._pos = off + len(out)
         return out
 
     read1 = read
